@@ -48,7 +48,32 @@ TwoTargetNames == {"XX", "SWAP", "CSWAP"}
 InvertibleNames == {"H", "X", "Y", "Z", "S", "T", "RX", "RY", "RZ", "CH", "PHASE", "CNOT", "CX", "CY", "CZ", "CRX", "CRY", "CRZ",
                     "CPHASE", "XX", "SWAP", "CSWAP"}
 BadKinds == {"negative-target", "negative-control", "float-index", "duplicate", "too-many-targets", "too-few-targets",
-             "string-index"}
+             "string-index", "controlled-too-many-targets", "crot-too-many-targets", "control-on-uncontrolled"}
+
+\* ---- MakeGate: validity of constructor arguments (name, targets, controls), decided for EVERY combination ----------
+\* An index is a record [v, ty]: ty in "int", "float", "str", "bool" (True/False), "npint" (numpy integer scalar).
+\* Documented sets of tangelo.linq.gate: one-target and two-target gate names; every other name is a custom gate
+\* (any positive number of targets).  Controls are only accepted by names starting with "C".
+DocOneTarget == {"H", "X", "Y", "Z", "S", "T", "RX", "RY", "RZ", "PHASE", "CNOT", "CX", "CY", "CZ", "CRX", "CRY", "CRZ", "CPHASE"}
+DocTwoTarget == {"XX", "SWAP", "CSWAP"}
+CustomNames  == {"MEASURE", "POTATO", "CPOTATO", "CH"}
+CtrlNames    == {"CNOT", "CX", "CY", "CZ", "CRX", "CRY", "CRZ", "CPHASE", "CSWAP", "CPOTATO", "CH"}      \* names starting with C
+MakeGateNames == DocOneTarget \cup DocTwoTarget \cup CustomNames
+IdxOf(cd)    == {cd.t[j] : j \in 1..Len(cd.t)} \cup (IF cd.hasc THEN {cd.c[j] : j \in 1..Len(cd.c)} ELSE {})
+NIdx(cd)     == Len(cd.t) + (IF cd.hasc THEN Len(cd.c) ELSE 0)
+\* "reject": Gate() must raise; "accept": must succeed with exactly these targets/controls; "either": not documented
+MakeGateVerdict(cd) ==
+  LET typeBad  == \E x \in IdxOf(cd) : x.ty \in {"float", "str"} \/ x.v < 0
+      typeOpen == \E x \in IdxOf(cd) : x.ty \in {"bool", "npint"}
+      ctrlBad  == cd.hasc /\ cd.name \notin CtrlNames
+      dup      == Cardinality({x.v : x \in IdxOf(cd)}) < NIdx(cd)          \* Python: True == 1 == numpy 1
+      countBad == \/ (cd.name \in DocOneTarget /\ Len(cd.t) # 1)
+                  \/ (cd.name \in DocTwoTarget /\ Len(cd.t) # 2)
+      open     == \/ typeOpen
+                  \/ (cd.name \notin DocOneTarget \cup DocTwoTarget /\ Len(cd.t) = 0)
+                  \/ (cd.hasc /\ Len(cd.c) = 0)
+                  \/ (~cd.hasc /\ cd.name \in CtrlNames)                    \* controlled name without controls: silent
+  IN IF typeBad \/ ctrlBad \/ dup \/ countBad THEN "reject" ELSE IF open THEN "either" ELSE "accept"
 
 Symbolic(gs)   == \E j \in 1..Len(gs) : gs[j].s # ""
 Invertible(gs) == \A j \in 1..Len(gs) : gs[j].name \in InvertibleNames
